@@ -171,6 +171,24 @@ CHECKS = {
               "for resp='absacce' (the pvelo indicator is rescaled for output)."),
         technique="TLA+ transcription + declarative requirement checked exhaustively by TLC; replay + TLC trace judgement of real selections",
     ),
+    "C01": dict(
+        cat="exploration",
+        text=("specs/OdeModel.tla: problems = sequences of equation kinds (rigid-body undamped / damped above and far below the "
+              "documented cut-off, under-, critically, over-damped, within 1e-6 of critical on both sides of the regime switch, "
+              "optional residual-flexibility) x hold order x initial-condition rule; representations = SolveUnc / SolveExp2 / "
+              "SolveExp1 x mass None/vector/matrix x diagonal or congruence-coupled matrices x pre_eig x rigid-body set given/auto "
+              "x contiguous/interleaved order, with the documented legality rules. TLC checks that every problem has >= 2 legal "
+              "representations (non-vacuous equivalence classes) and exports problems, representations and the exact one-step "
+              "solution of each kind as TERMS written from the characteristic roots. All 18.6k (problem, representation) pairs "
+              "(thorough: 3 equations) are run: d, v, a histories vs the terms evaluated at 50 digits, and the equation-of-motion "
+              "residual at every sample. The statement is tested on every enumerated case, not proved."),
+        ref="4/C01",
+        note=("Trusted: TLC, the generic term evaluator (mpmath, 50 digits). Tolerance 1e-9 of the history scale; 5e-8 within 1e-6 of "
+              "critical damping; 2e-3 for rigid-body damping below the documented cut-off. SolveUnc's coupled path is not asked to "
+              "handle (nearly) defective systems. Two genuine defects repaired (rb indices with rf in front, fix: bbfb298; pre_eig "
+              "initial conditions, fix: 930e72c)."),
+        technique="TLA+ configuration lattice + exact step terms exported by TLC, evaluated by a generic 50-digit evaluator against every representation",
+    ),
 }
 
 NOT_YET = {}
